@@ -244,11 +244,31 @@ class HypCheck(object):
         self.exhaustive = False
         self.isolated = False         # uses engine.run_isolated
 
+    #: Hypothesis remembers every example of a run; long runs over large
+    #: examples are therefore cut into tasks of at most this many examples,
+    #: each with its own seed and its own short-lived process.
+    MAX_PER_TASK = 1500
+
     def tasks(self, tier, seed):
         shards, n = self.budget[tier]
         scale = float(os.environ.get('VERIF_BUDGET_SCALE', '1'))
         n = max(1, int(n * scale))
-        return [('hyp', seed * 1000 + i, n) for i in range(shards)]
+        per = self.MAX_PER_TASK
+
+        while shards * ((n + per - 1) // per) > 999:
+            per *= 2
+
+        out = []
+
+        for i in range(shards):
+            left = n
+
+            while left > 0:
+                k = min(per, left)
+                out.append(('hyp', seed * 1000 + len(out), k))
+                left -= k
+
+        return out
 
     def bound(self, tier):
         shards, n = self.budget[tier]
@@ -407,6 +427,95 @@ def _hyp_settings(n, shrink):
                     derandomize=False, report_multiple_bugs=False,
                     suppress_health_check=list(HealthCheck),
                     phases=phases, print_blob=False)
+
+
+def _jobs_of(tasks, nproc):
+    """Group tasks into jobs (one short-lived process each): a Hypothesis
+    shard is a job of its own, enumeration chunks of one check are batched
+    so that forking stays cheap."""
+    jobs = []
+    enum = collections.OrderedDict()
+
+    for name, t in tasks:
+        if t[0] == 'hyp':
+            jobs.append([(name, t)])
+        else:
+            enum.setdefault(name, []).append((name, t))
+
+    for name, lst in enum.items():
+        # neighbouring chunks tend to cost alike: deal them out in turn
+        njobs = min(len(lst), nproc * 8)
+
+        for j in range(njobs):
+            jobs.append(lst[j::njobs])
+
+    return jobs       # Hypothesis shards (the long ones) first
+
+
+def _job_child(conn, job):
+    out = []
+
+    try:
+        for arg in job:
+            out.append(_run_task(arg))
+    except BaseException:
+        out.append((job[0][0], None, traceback.format_exc(), 0))
+
+    try:
+        conn.send(out)
+    finally:
+        conn.close()
+
+
+def _run_jobs(jobs, nproc):
+    """Run every job in a process of its own, at most ``nproc`` at a time,
+    and yield the task results.  A process that dies without a result (killed
+    for memory, crashed interpreter) does not hang the run: its tasks are
+    retried one per process, and a task that dies twice is reported as a
+    harness error."""
+    from multiprocessing import connection
+    ctx = multiprocessing.get_context('fork')
+    queue = collections.deque((job, 0) for job in jobs)
+    running = {}
+
+    try:
+        while queue or running:
+            while queue and len(running) < nproc:
+                job, tries = queue.popleft()
+                r, w = ctx.Pipe(duplex=False)
+                p = ctx.Process(target=_job_child, args=(w, job))
+                p.start()
+                w.close()
+                running[r] = (p, job, tries)
+
+            for r in connection.wait(list(running), timeout=5):
+                p, job, tries = running.pop(r)
+
+                try:
+                    res = r.recv()
+                except (EOFError, OSError):
+                    res = None
+
+                r.close()
+                p.join()
+
+                if res is not None:
+                    for x in res:
+                        yield x
+                elif len(job) > 1:
+                    for arg in job:
+                        queue.append(([arg], tries))
+                elif tries < 1:
+                    queue.append((job, tries + 1))
+                else:
+                    yield (job[0][0], None,
+                           'worker process died twice (exit code %r) while '
+                           'running task %r' % (p.exitcode, job[0][1]), 0)
+    finally:
+        for r, (p, _job, _tries) in running.items():
+            p.terminate()
+            p.join()
+            r.close()
 
 
 def _run_task(arg):
@@ -625,22 +734,14 @@ def run_property(prop, module, tier, seed, only=None, out=sys.stdout):
 
     if nproc == 1 or os.environ.get('VERIF_SERIAL'):
         results = map(_run_task, tasks)
-        pool = None
     else:
-        ctx = multiprocessing.get_context('fork')
-        pool = ctx.Pool(nproc)
-        results = pool.imap_unordered(_run_task, tasks, chunksize=1)
+        results = _run_jobs(_jobs_of(tasks, nproc), nproc)
 
-    try:
-        for name, st, err, _dt in results:
-            if err is not None:
-                errors.append((name, err))
-            else:
-                merged[name].merge(st)
-    finally:
-        if pool is not None:
-            pool.close()
-            pool.join()
+    for name, st, err, _dt in results:
+        if err is not None:
+            errors.append((name, err))
+        else:
+            merged[name].merge(st)
 
     if errors:
         for name, err in errors[:3]:
